@@ -43,6 +43,12 @@ type param struct {
 
 type refErr struct{ class, msg string }
 
+// refReturn is a (return-from name value) in flight; a defun establishes the block `name`.
+type refReturn struct {
+	tag sym
+	v   val
+}
+
 type env struct {
 	vars   map[sym]*val
 	parent *env
@@ -251,6 +257,9 @@ func (m *refMachine) run(f func() val) (o obs) {
 	defer func() {
 		if rec := recover(); rec != nil {
 			re, ok := rec.(refErr)
+			if rr, isRet := rec.(refReturn); isRet {
+				re, ok = refErr{class: "control-error", msg: "return-from " + string(rr.tag) + " outside its block"}, true
+			}
 			if !ok {
 				panic(rec)
 			}
@@ -355,7 +364,7 @@ func (m *refMachine) intArg(v val, op string) int {
 
 var specialForms = map[sym]bool{"quote": true, "function": true, "if": true, "let": true, "let*": true, "progn": true,
 	"setq": true, "cond": true, "when": true, "unless": true, "and": true, "or": true, "defun": true, "defmacro": true,
-	"defvar": true, "defparameter": true, "backquote": true, "lambda": true}
+	"defvar": true, "defparameter": true, "backquote": true, "lambda": true, "return-from": true}
 
 var builtins = map[sym]bool{"+": true, "-": true, "*": true, "<": true, ">": true, "=": true, "list": true, "first": true,
 	"second": true, "third": true, "car": true, "cdr": true, "listp": true, "not": true, "null": true, "tr": true, "eval": true,
@@ -542,6 +551,12 @@ func (m *refMachine) evalList(l *lst, e *env) val {
 		m.funcs[name] = fn
 		m.definedGen[name]++
 		return name
+	case "return-from":
+		var v val
+		if 1 < len(args) {
+			v = m.eval(args[1], e)
+		}
+		panic(refReturn{tag: args[0].(sym), v: v})
 	case "backquote":
 		return m.backquote(args[0], e)
 	case "unquote":
@@ -659,6 +674,23 @@ func (m *refMachine) apply(fn *lambda, argv []val) val {
 	}
 	ne := &env{vars: map[sym]*val{}, parent: fn.env}
 	m.bind(fn, ne, argv)
+	if fn.name == "" {
+		return m.evalBody(fn.body, ne)
+	}
+	return m.callBlock(fn, ne)
+}
+
+// callBlock evaluates the body of a named function inside the block of that name.
+func (m *refMachine) callBlock(fn *lambda, ne *env) (result val) {
+	defer func() {
+		if rec := recover(); rec != nil {
+			if rr, ok := rec.(refReturn); ok && rr.tag == sym(fn.name) {
+				result = rr.v
+				return
+			}
+			panic(rec)
+		}
+	}()
 	return m.evalBody(fn.body, ne)
 }
 
